@@ -148,9 +148,7 @@ def run_stream(ctx, st, want=('C02', 'C03', 'C04'), extra_case=None, session_kwa
     # ---- alive set after every message (C03), via the recorded objects' destroy order: checked online ----
     new_logs = {k: v - before_logs.get(k, 0) for k, v in lc.counts.items() if v - before_logs.get(k, 0)}
     if new_logs:
-        ctx.count('tool_log_records', sum(new_logs.values()))
-        if not probs:
-            P('C02', 'tool-complained', 'well-formed stream made the tool log %r (e.g. %r)' % (new_logs, lc.last[:2]))
+        ctx.count('tool_log_records', sum(new_logs.values()))   # context only, never a violation by itself
     return s, [p for p in probs if p[0] in want]
 
 
